@@ -272,8 +272,10 @@ type Window struct {
 
 // Part is a scripted EXT-X-PART / preload hint (Low-Latency).
 type Part struct {
-	URI   string
-	DurNS int64
+	URI        string
+	DurNS      int64
+	RangeLen   uint64 // 0: no BYTERANGE
+	RangeStart uint64
 }
 
 // Playlist is a scripted media playlist.
@@ -298,6 +300,8 @@ type Playlist struct {
 	// LLHistory: per poll the trailing parts and the hint
 	LLParts [][]Part
 	LLHint  []string
+	// LLHintRange: optional (start, length) of the hinted part inside its resource, per poll
+	LLHintRange [][2]uint64
 
 	mu    sync.Mutex
 	polls int
@@ -389,10 +393,18 @@ func (p *Playlist) render(k int) string {
 	}
 	if p.CanBlockReload && k < len(p.LLParts) {
 		for _, pt := range p.LLParts[k] {
-			b.WriteString("#EXT-X-PART:DURATION=" + fmtDur(pt.DurNS) + ",URI=\"" + pt.URI + "\"\n")
+			br := ""
+			if pt.RangeLen > 0 {
+				br = fmt.Sprintf(",BYTERANGE=\"%d@%d\"", pt.RangeLen, pt.RangeStart)
+			}
+			b.WriteString("#EXT-X-PART:DURATION=" + fmtDur(pt.DurNS) + ",URI=\"" + pt.URI + "\"" + br + "\n")
 		}
 		if k < len(p.LLHint) && p.LLHint[k] != "" {
-			b.WriteString("#EXT-X-PRELOAD-HINT:TYPE=PART,URI=\"" + p.LLHint[k] + "\"\n")
+			br := ""
+			if k < len(p.LLHintRange) && p.LLHintRange[k][1] > 0 {
+				br = fmt.Sprintf(",BYTERANGE-START=%d,BYTERANGE-LENGTH=%d", p.LLHintRange[k][0], p.LLHintRange[k][1])
+			}
+			b.WriteString("#EXT-X-PRELOAD-HINT:TYPE=PART,URI=\"" + p.LLHint[k] + "\"" + br + "\n")
 		}
 	}
 	if w.Endlist {
@@ -407,12 +419,17 @@ type Site struct {
 	Playlists map[string]*Playlist // by URL without query
 	Files     map[string][]byte    // by URL without query
 	Static    map[string]string    // static text (multivariant) by URL without query
+	// Sequences: successive texts served for a URL (the last one repeats); a text starting with
+	// "\x00404" is served as status 404
+	Sequences map[string][]string
+	seqPos    map[string]int
 	Kinds     map[string]string
 }
 
 // NewSite allocates a Site.
 func NewSite() *Site {
-	return &Site{Playlists: map[string]*Playlist{}, Files: map[string][]byte{}, Static: map[string]string{}, Kinds: map[string]string{}}
+	return &Site{Playlists: map[string]*Playlist{}, Files: map[string][]byte{}, Static: map[string]string{}, Kinds: map[string]string{},
+		Sequences: map[string][]string{}, seqPos: map[string]int{}}
 }
 
 func stripQuery(u *url.URL) string {
@@ -431,6 +448,17 @@ func (st *Site) Handler() Handler {
 		defer st.mu.Unlock()
 		if t, ok := st.Static[key]; ok {
 			return Response{Status: 200, Body: []byte(t), CType: "application/vnd.apple.mpegurl", Kind: "playlist"}
+		}
+		if seq, ok := st.Sequences[key]; ok && len(seq) > 0 {
+			i := st.seqPos[key]
+			if i >= len(seq) {
+				i = len(seq) - 1
+			}
+			st.seqPos[key] = i + 1
+			if strings.HasPrefix(seq[i], "\x00404") {
+				return Response{Status: 404, Kind: "playlist"}
+			}
+			return Response{Status: 200, Body: []byte(seq[i]), CType: "application/vnd.apple.mpegurl", Kind: "playlist"}
 		}
 		if p, ok := st.Playlists[key]; ok {
 			t, _ := p.Next()
